@@ -23,11 +23,12 @@ import (
 // repoDir is the tree under check; VX_REPO overrides it (used only to run a
 // check against a scratch worktree carrying a seeded change). outDir receives
 // evidence/ and replays/; VX_OUT overrides it so that such runs never touch the
-// evidence of /repo itself.
+// evidence of /repo itself. VX_VERIF relocates the harnesses, checks.json and known
+// findings (a snapshot of /verif, e.g. under `vp run`).
 var (
 	repoDir  = envOr("VX_REPO", "/repo")
-	verifDir = "/verif"
-	outDir   = envOr("VX_OUT", "/verif")
+	verifDir = envOr("VX_VERIF", "/verif")
+	outDir   = envOr("VX_OUT", verifDir)
 )
 
 func envOr(k, d string) string {
